@@ -36,7 +36,7 @@ class C20(Prop):
                'cmcmc.gaussian_transition_ratio', 'cmcmc.uniform_prior_ratio', 'cmcmc.flat_prior_ratio', 'cmcmc.gaussian_jump_prob',
                'cconvert.cE_gd', 'cconvert.cE_tk', 'cconvert.ctk_uv', 'cconvert.cTape_MT6', 'cconvert.csingleSDR_SDR', 'cconvert.cN_SDR',
                'cprobability.c_ln_normalise', 'cprobability.dkl', 'cmcmc.acceptance']
-    HORIZONTAL_OK = False
+    HORIZONTAL_OK = True
     LOOPS = {'cprobability.c_ln_normalise': ['cprobability.c_ln_normalise'], 'cprobability.dkl': ['cprobability.c_ln_normalise', 'cprobability.c_dkl']}
 
     def setup(self):
